@@ -527,6 +527,25 @@ func templateNarrowProg(plan *Tape) *Prog {
 		top.Outs = []Field{{"t_n0", cins[0].T}}
 		top.Ret = []Bind{{"t_n0", ref("PRODUCE", "w0"), false}}
 	}
+	if plan.Draw(2) == 0 {
+		// a call bound as a whole to a struct with the same members whose nested type is
+		// narrower - next to consumers (and a top-level output) of the full nested value
+		p.Structs = append(p.Structs, &StructDef{Name: "WHOLEN", Fields: []Field{{"inner", Ty{Base: "NARROW"}}, {"n", intT}, {"many", Ty{Base: "NARROW", Dims: "a"}}}})
+		p.Stages = append(p.Stages,
+			&StageDef{Name: "PRODUCE2", SrcKind: "comp", Ins: []Field{{"seed", intT}}, Outs: []Field{{"inner", Ty{Base: "WIDE"}}, {"n", intT}, {"many", Ty{Base: "WIDE", Dims: "a"}}}},
+			&StageDef{Name: "CONSW", SrcKind: "comp", Ins: []Field{{"s", Ty{Base: "WHOLEN"}}}, Outs: []Field{{"done", intT}}},
+			&StageDef{Name: "CONSX", SrcKind: "comp", Ins: []Field{{"inner", Ty{Base: "WIDE"}}, {"c", intT.ArrayOf()}, {"many", Ty{Base: "WIDE", Dims: "a"}}}, Outs: []Field{{"done", intT}}})
+		top.Calls = append(top.Calls, &CallDef{Callee: "PRODUCE2", Id: "PRODUCE2", Binds: []Bind{{"seed", self("seed"), false}}})
+		cw := &CallDef{Callee: "CONSW", Id: "CONSW", Binds: []Bind{{"s", ref("PRODUCE2"), false}}}
+		cx := &CallDef{Callee: "CONSX", Id: "CONSX", Binds: []Bind{{"inner", ref("PRODUCE2", "inner"), false}, {"c", ref("PRODUCE2", "inner", "c"), false}, {"many", ref("PRODUCE2", "many"), false}}}
+		if plan.Draw(2) == 0 {
+			top.Calls = append(top.Calls, cw, cx)
+		} else {
+			top.Calls = append(top.Calls, cx, cw)
+		}
+		top.Outs = append(top.Outs, Field{"t_whole", Ty{Base: "WHOLEN"}}, Field{"t_inner", Ty{Base: "WIDE"}}, Field{"t_many", Ty{Base: "WIDE", Dims: "a"}})
+		top.Ret = append(top.Ret, Bind{"t_whole", ref("PRODUCE2"), false}, Bind{"t_inner", ref("PRODUCE2", "inner"), false}, Bind{"t_many", ref("PRODUCE2", "many"), false})
+	}
 	// values known at compile time take another path (the expression filter):
 	// literal collections of the wide struct, some elements null (also the last
 	// one), passed in from the top-level call and narrowed at a stage input and at
